@@ -59,7 +59,7 @@ type Msg struct {
 	GenEmpty []string    `json:"genempty,omitempty"` // SetGenHeader(name) with no values
 	Preform  [][2]string `json:"preform,omitempty"`  // SetGenHeaderPreformatted
 	ToIgnore []string    `json:"toignore,omitempty"` // ToIgnoreInvalid(list)
-	SMIME    int         `json:"smime,omitempty"`    // 0 none, 1 RSA, 2 ECDSA P-256, 3 ECDSA P-384, 4 ECDSA P-521
+	SMIME    int         `json:"smime,omitempty"`    // 0 none, 1 RSA, 2 ECDSA P-256, 3 ECDSA P-384, 4 ECDSA P-521, 5 ECDSA P-256 with the same serial number as the intermediate
 	Inter    bool        `json:"inter,omitempty"`    // with intermediate certificate
 	// SignAPI: 0 SignWithKeypair; 1..3 SignWithTLSCertificate with a chain of that many certificates (leaf; leaf +
 	// intermediate; leaf + intermediate + root) — Inter must be set for 2 and 3; 4 = chain of three with Leaf unset
@@ -419,6 +419,8 @@ func Build(s Msg, h *Hooks) (*mail.Msg, error) {
 			kp = mat.SignP384
 		case 4:
 			kp = mat.SignP521
+		case 5:
+			kp = mat.SignSameSerial
 		}
 		inter := mat.InterCert
 		if !s.Inter {
